@@ -139,6 +139,22 @@ def cases(tier, rng):
         for s in opsets:
             cs.append(mk(t, s, "exh"))
         seen += 1
+    # a reader+writer pair under one more wrapper: one half is closed on its own (through the object shared with the pair), then the
+    # enclosing wrapper; every short sequence over the half objects, the pair and the outer wrapper
+    for outer in (["named", "1"], ["safe", "1"], ["sim"], ["simw"]):
+        for rs in ("safe", "named"):
+            for ws in ("safe", "named"):
+                t = outer + ["pair", rs, "2", "raw", "0", "0", ws, "3", "raw", str(rng.below(2)), "0"]
+                objs = [1, 3, 4, 5]
+                seqs = [[]]
+                out = []
+                for _ in range(3):
+                    seqs = [q + [(o, k)] for q in seqs for o in ("close", "closed") for k in objs]
+                    out += seqs
+                if not thorough:
+                    out = [q for q in out if len(q) <= 2] + [rng.choice(out) for _ in range(40)]
+                for q in out:
+                    cs.append(mk(t, q, "pair-under-wrapper"))
     for _ in range(20000 if thorough else 2500):
         d = rng.range(1, 6)
         t, _ = gen_term(rng, d, 1 if rng.chance(1, 2) else rng.below(4))
